@@ -435,9 +435,10 @@ func main() {
 	if mutated == 0 {
 		c.HarnessError("vacuous: no case changed its receiver")
 	}
-	bound := "array receivers: all lists of length <= 3 over 4 values (+ sort / flat pools); string receivers: all strings of length <= 3 over 4 characters"
+	two := "; two-step family: every list of length <= %d over 2 values (+3 nested receivers) x one first call of {push(1), push(2), pop, shift, unshift(1), splice(0,1), $r=$r->slice(0), reverse, sort} x every method x argument tuple with item pools of 2 (concat 3) values, model applies both steps"
+	bound := "array receivers: all lists of length <= 3 over 4 values (+ sort / flat pools); string receivers: all strings of length <= 3 over 4 characters" + fmt.Sprintf(two, 3)
 	if !quick {
-		bound = "array receivers: all lists of length <= 4 over 4 values and length 5 over 3 values (+ sort / flat pools); string receivers: all strings of length <= 5 over 4 characters"
+		bound = "array receivers: all lists of length <= 4 over 4 values and length 5 over 3 values (+ sort / flat pools); string receivers: all strings of length <= 5 over 4 characters" + fmt.Sprintf(two, 4)
 	}
 	c.Finish(total, total, total-open, "every documented method x every receiver in the bound x every argument tuple (omitted optionals, index classes below..beyond, 0-3 variadic items, callback arities); "+bound+"; result, receiver-after and callback trace compared with an independent Go model")
 }
